@@ -1,5 +1,5 @@
 CONSTANTS
-  Cfgs <- C11_Cfgs
+  Cfgs <- C13_Cfgs
   StoreLists <- C04_Stores
   CerLists <- C13_Cers
   Known = {}
